@@ -14,13 +14,13 @@ Proof. exact cdecode_normalize. Qed.
 Print Assumptions C13_concrete_agrees.
 
 (* decoding a DNA that is valid for the template's specification can only fail inside user code *)
-Theorem C13_decode_total : forall cdec w t d, shallow w -> custom_concrete cdec -> custom_total cdec ->
+Theorem C13_decode_total : forall cdec w t d, custom_total cdec ->
   valid (dna_spec w t) d = true -> exists v, sdecode cdec w t d = Ok v.
 Proof. exact decode_total. Qed.
 Print Assumptions C13_decode_total.
 
 (* ... and never on a finite space (no float, no custom point) *)
-Theorem C13_decode_total_finite : forall cdec w t d, shallow w -> custom_concrete cdec -> finite (dna_spec w t) = true ->
+Theorem C13_decode_total_finite : forall cdec w t d, finite (dna_spec w t) = true ->
   valid (dna_spec w t) d = true -> exists v, sdecode cdec w t d = Ok v.
 Proof. exact decode_total_finite. Qed.
 Print Assumptions C13_decode_total_finite.
@@ -38,7 +38,7 @@ Print Assumptions C13_decode_concrete_nofilter.
 
 (* the value has the template's shape: accepted placeholders replaced by decoded candidates, the rest (including
    the filtered-out placeholders) in place *)
-Theorem C13_decode_shape : forall cdec w t d v, shallow w -> custom_concrete cdec ->
+Theorem C13_decode_shape : forall cdec w t d v,
   valid (dna_spec w t) d = true -> sdecode cdec w t d = Ok v -> shape cdec w t v.
 Proof. exact decode_shape. Qed.
 Print Assumptions C13_decode_shape.
@@ -96,7 +96,6 @@ Print Assumptions C13_decode_injective.
 (* iterating a finite template: the DNAs swept are the valid ones, each once, as many as space_size (C11); every one
    decodes and no two decode to equal values *)
 Theorem C13_iter_count : forall cdec w t, hwf t = true -> wf_t t -> finite (dna_spec w t) = true ->
-  shallow w -> custom_concrete cdec ->
   (forall ck s1 s2 v1 v2, cdec ck s1 = Ok v1 -> cdec ck s2 = Ok v2 -> veq v1 v2 = true -> s1 = s2) ->
   distinguishable cdec w t ->
   let s := dna_spec w t in
